@@ -138,6 +138,6 @@ GrowDoc(e, A) ==   \* A: [names, anames, avals, texts, maxattrs, comments]
         ELSE {})
   \cup (IF lastIsText THEN {}
         ELSE {[e EXCEPT !.ch = Append(@, XT(t))] : t \in {x \in A.texts : ~(NonBlank(x) /\ HasNonBlankText(e))}})
-  \cup (IF A.comments /\ ~(e.ch # <<>> /\ e.ch[Len(e.ch)].k = "c") THEN {[e EXCEPT !.ch = Append(@, XC(<<"c">>))]} ELSE {})
+  \cup (IF A.comments /\ ~(e.ch # <<>> /\ e.ch[Len(e.ch)].k = "c") THEN {[e EXCEPT !.ch = Append(@, XC(IF "ctext" \in DOMAIN A THEN A.ctext ELSE <<"c">>))]} ELSE {})
   \cup UNION {{[e EXCEPT !.ch[i] = g] : g \in GrowDoc(e.ch[i], A)} : i \in {j \in 1..Len(e.ch) : IsElem(e.ch[j])}}
 =============================================================================
